@@ -299,7 +299,7 @@ class BuiltinMixin:
         if isinstance(v, VInt):
             r = z3.If(v.t < 0, z3.Concat(z3.StringVal("-"), z3.IntToStr(-v.t)), z3.IntToStr(v.t))
             outs = []
-            if self.config and getattr(self.config, "int_str_limit", False):
+            if self.config and getattr(self.config, "int_str_limit", False) and not self._obviously_small(v.t):
                 lim = self.int_str_limit_const(st)
                 big = z3.Or(v.t >= lim, v.t <= -lim)
                 s_big = st.fork()
@@ -360,6 +360,27 @@ class BuiltinMixin:
         if isinstance(v, (VTuple, VClass, VExcClass, VFunc, VBound, VBuiltin, VSeq)):
             return [(st, VStr(fresh("str", S)))]
         raise Unsupported(f"str() of {type(v).__name__}")
+
+    @staticmethod
+    def _obviously_small(t, depth=0):
+        """an int term that cannot reach the int -> str digit limit: a numeral, a length or a
+        position in a string/sequence (bounded by sys.maxsize), and sums/differences/choices of
+        a few of those"""
+        t = z3.simplify(t) if depth == 0 else t
+        if z3.is_int_value(t):
+            return abs(t.as_long()) < 2**62
+        if not z3.is_app(t) or depth > 3:
+            return False
+        k = t.decl().kind()
+        if k in (z3.Z3_OP_SEQ_LENGTH, z3.Z3_OP_SEQ_INDEX):
+            return True
+        if k == z3.Z3_OP_ITE:
+            return BuiltinMixin._obviously_small(t.arg(1), depth + 1) and BuiltinMixin._obviously_small(t.arg(2), depth + 1)
+        if k in (z3.Z3_OP_ADD, z3.Z3_OP_SUB, z3.Z3_OP_UMINUS) and t.num_args() <= 3:
+            return all(BuiltinMixin._obviously_small(a, depth + 1) for a in t.children())
+        if k == z3.Z3_OP_MUL and t.num_args() == 2 and any(z3.is_int_value(a) and abs(a.as_long()) <= 4 for a in t.children()):
+            return all(BuiltinMixin._obviously_small(a, depth + 1) for a in t.children())
+        return False
 
     def int_str_limit_const(self, st):
         lim = z3.Int("INT_STR_LIMIT")
